@@ -41,7 +41,7 @@ T = {
  "C10": ("explicit-state exploration (stateless BFS) of all lifecycle-respecting call histories up to a depth over one and two engine objects (incl. object-lifetime operations, set-ups alternating between space types, engine factories) plus a TLA+ model of the lifecycle explored by TLC whose every path is replayed on the engine; differential oracle against the canonical history of each abstract state",
          "Every history over {setup, setup', iterate, iterate_n, sample, finalize} up to the depth bound is executed on real engine objects under a supervisor (hang/crash attribution); after every operation all observers are compared with those of the canonical history of the object's abstract state run in isolation.",
          "reference lifecycle model (A.5); depth bounds; script catalogue", "3/C10"),
- "C11": ("the C10 history exploration and a shape catalogue enumeration executed on an ASan+UBSan+hardened-libstdc++ build of the working tree; any report or plain/sanitized output difference is a violation",
+ "C11": ("the C10 history exploration and a shape catalogue enumeration executed on an ASan+UBSan+hardened-libstdc++ build of the working tree; any report or plain/sanitized output difference is a violation; plus every run of a catalogue repeated under 4 fill patterns of freshly allocated memory (owned environment answer) with identical results required",
          "Every enumerated script shape and lifecycle history runs on the sanitized engine in supervised workers; memory errors, UB and library-precondition violations abort and are attributed to the case.",
          "sanitizers see only executed accesses; bounded shape catalogue", "3/C11"),
  "C12": ("bounded-exhaustive enumeration of object shapes x unit systems per level x routes (dict, JSON, files, multi-file) with physical-equality oracle; every alias and optional key one at a time; file-name, text-array-layout and process-history sub-spaces",
